@@ -11,14 +11,19 @@ Full statements (`C20_*_Statement`) quantify over every node kind.  What is prov
 all expression kinds whose code is straight-line — function calls with every argument list
 included (register, stack, struct in one or two registers of either class, struct in memory,
 long double, return buffer, both parities of `depth`) — for every operand type, arbitrary nesting.
-Open: COND, LOGAND, LOGOR, STMT_EXPR, CAS, the builtin alloca and the control-flow statements
-(validated by `Effect.checkBody` on every function of the corpus on every run, not yet proved);
-calls with an empty struct argument are the known finding C20-empty-struct-arg.
+The `depth` half of the property (`C20_depth_partial`, `C20_assert`) is proved for ALL 47 node kinds.
+Open for the rsp/x87 half: COND, LOGAND, LOGOR, STMT_EXPR, CAS, the builtin alloca and the
+control-flow statements — their code has labels and needs the label-height semantics `Balanced`;
+it is validated by `Effect.checkBody` on every function of the corpus on every run, not yet proved.
+Calls with an empty struct argument and jumps out of a statement expression are the known findings
+C20-empty-struct-arg and C20-jump-out-of-stmt-expr (kernel-checked counterexamples of the full
+statements in Findings/C20.lean).
 
 Property theorems only; helper lemmas are in Lemmas/C20Lemmas.lean and Lemmas/C20Induction.lean.
 -/
 import ChibiVerif.Lemmas.C20Induction
 import ChibiVerif.Lemmas.C20Typing
+import ChibiVerif.Lemmas.C20Depth
 
 namespace ChibiVerif.Props.C20
 open ChibiVerif ChibiVerif.Codegen ChibiVerif.Effect ChibiVerif.Asm ChibiVerif.Ast
@@ -143,6 +148,39 @@ theorem C20_assert_partial (env : Env) (body : Node) (h : covS env body = true)
   rw [(C20_stmt_partial env body h s s' ls hg).2, h0]
 
 example : covS { fpic := false, types := [] } (.block ⟨none, 1, 1⟩ .nil) = true := by decide
+
+/-- **C20_depth, full statement.**  `depth` is unchanged by the code of every node. -/
+def C20_depth_Statement : Prop :=
+  ∀ (env : Env) (n : Node) (s s' : St) (ls : List Line),
+    (genExpr env n s = .ok ((), s', ls) ∨ genAddr env n s = .ok ((), s', ls) ∨ genStmt env n s = .ok ((), s', ls)) →
+    s'.depth = s.depth
+
+/-- **C20_depth (all 47 node kinds).**  For every tree of every kind — control flow, statement
+    expressions, calls with any argument list, atomics, alloca, ill-typed trees included — whose calls
+    pass only struct/union arguments of at least one byte (`okN`; outside: known finding
+    C20-empty-struct-arg): `gen_expr`, `gen_addr` and `gen_stmt` return with the `depth` they were
+    entered with. -/
+theorem C20_depth_partial (env : Env) (n : Node) (h : okN n = true) (s s' : St) (ls : List Line)
+    (hg : genExpr env n s = .ok ((), s', ls) ∨ genAddr env n s = .ok ((), s', ls) ∨
+      genStmt env n s = .ok ((), s', ls)) :
+    s'.depth = s.depth := by
+  rcases hg with hg | hg | hg
+  · simpa using (dexpr env n h).elim hg
+  · simpa using (daddr env n h).elim hg
+  · simpa using (dstmt env n h).elim hg
+
+example : okN (.if_ ⟨none, 1, 1⟩ (.num ⟨none, 1, 1⟩ 1 0 0 0 0) (.block ⟨none, 1, 1⟩ .nil) .null) = true := by decide
+
+/-- **C20_assert (every function).**  `assert(depth == 0)` in `emit_text` never fires: whenever
+    `gen_stmt(fn->body)` succeeds on a body of any shape (struct arguments of at least one byte), the
+    assertion that follows it passes, so `fnBody` succeeds with the same code. -/
+theorem C20_assert (env : Env) (fn : Obj) (h : okN fn.body = true) (s s' : St) (ls : List Line)
+    (hg : genStmt env fn.body s = .ok ((), s', ls)) (h0 : s.depth = 0) :
+    fnBody env fn s = .ok ((), s', ls) := by
+  have hd : s'.depth = 0 := by rw [C20_depth_partial env fn.body h s s' ls (Or.inr (Or.inr hg)), h0]
+  simp [fnBody, bind, M.bind, hg, getDepth, hd, pure, M.pure]
+
+example : okN (.block ⟨none, 1, 1⟩ (.cons (.ret ⟨none, 1, 1⟩ .null) .nil)) = true := by decide
 
 /-- **C20_cast_table.**  Every cell of the regenerated `cast_table` is straight-line, leaves %rsp
     alone and changes the x87 depth by (to is long double) − (from is long double); in particular
